@@ -587,6 +587,19 @@ func Input(l *InputSharedVars, g *GlobalVarsMain, hPath *HFilePath, driConfig *C
 				// ! -- Setzen des Simulationsbeginns für Zeitschleife
 				// set simulation start for time loop
 				g.BEGINN = g.ERNTE[0]
+				// the irrigation events were read before the start of the simulation was known:
+				// drop the events before the start now, otherwise the first of them blocks all later ones
+				kept := 0
+				for i := 0; i < l.ANZBREG; i++ {
+					if g.ZTBR[i] >= g.BEGINN {
+						g.ZTBR[kept], g.BREG[kept], g.BRKZ[kept] = g.ZTBR[i], g.BREG[i], g.BRKZ[i]
+						kept++
+					}
+				}
+				for i := kept; i < l.ANZBREG; i++ {
+					g.ZTBR[i], g.BREG[i], g.BRKZ[i] = 0, 0, 0
+				}
+				l.ANZBREG = kept
 				// ! Ernte der 1. Frucht = Düngung Nr. 1 mit Ernterückständen
 				// Harvest of first crop = Fertilization nr. 1 with harvest residue
 				g.ZTDG[0] = g.ERNTE[0]
